@@ -68,6 +68,9 @@ type vpScenario struct {
 	// LoadDelayUS: the metadata lookup of the periodic sync takes this long (widens the
 	// window in which a sync overlaps an assign on the same interface)
 	LoadDelayUS int `json:"load_delay_us,omitempty"`
+	// UnassignDelayUS: every unassign call takes this long before it takes effect (a slow
+	// cloud: addresses stay "being removed" in the pool while still assigned in the cloud)
+	UnassignDelayUS int `json:"unassign_delay_us,omitempty"`
 }
 
 const vpPods = 8
@@ -141,12 +144,16 @@ func vpGenCfg(t *rapid.T, mode string) vpCfg {
 
 func vpGenOp(t *rapid.T, mode string) vpOp {
 	// weights per verdict group
-	kinds := []string{"alloc", "alloc", "alloc", "alloc", "release", "release", "syncpool", "sync", "drift", "faults", "clearinhibit"}
+	kinds := []string{"alloc", "alloc", "alloc", "alloc", "release", "release", "syncpool", "sync", "drift", "faults", "clearinhibit", "lateworker"}
 	switch mode {
 	case "C06":
 		// C06 quantifies over schedules, histories and configurations - not over cloud
 		// faults or remote removals, so those actions are not generated in this mode.
-		kinds = []string{"alloc", "alloc", "alloc", "alloc", "alloc", "release", "release", "release", "syncpool", "syncpool", "syncpool", "sync", "cancelalloc"}
+		// Remote removals and metadata glitches (the metadata service omits an address that is
+		// still assigned) are environment events rather than faults of a call; they are drawn
+		// here, rarely, because "never unassigns an address a pod holds" must survive the
+		// periodic sync marking a held address invalid.
+		kinds = []string{"alloc", "alloc", "alloc", "alloc", "alloc", "release", "release", "release", "syncpool", "syncpool", "syncpool", "sync", "sync", "cancelalloc", "glitch", "drift", "lateworker"}
 	case "C07":
 		kinds = append(kinds, "faults", "faults", "cancelalloc", "cancelalloc", "syncpool")
 	}
@@ -159,9 +166,14 @@ func vpGenOp(t *rapid.T, mode string) vpOp {
 		o.Kind = "alloc"
 		o.Pod = rapid.IntRange(0, vpPods-1).Draw(t, "pod")
 		o.CancelUS = rapid.IntRange(1, 3000).Draw(t, "cancel")
+	case "lateworker":
+		// a request whose pool worker notices the cancellation late: see doLateWorker
+		o.Pod = rapid.IntRange(0, vpPods-1).Draw(t, "pod")
+		o.A = rapid.IntRange(0, 2000).Draw(t, "retryafter")
+		o.CancelUS = rapid.IntRange(50, 4000).Draw(t, "cancel")
 	case "sync":
 		o.A = rapid.IntRange(0, 7).Draw(t, "eni")
-	case "drift":
+	case "drift", "glitch":
 		o.A = rapid.IntRange(0, 7).Draw(t, "eni")
 		o.B = rapid.IntRange(0, 15).Draw(t, "addr")
 		o.V6 = rapid.Bool().Draw(t, "v6")
@@ -179,6 +191,9 @@ func vpGen(mode string) func(t *rapid.T) vpScenario {
 		s := vpScenario{Mode: mode, Cfg: vpGenCfg(t, mode)}
 		if rapid.IntRange(0, 2).Draw(t, "loaddelay") == 0 {
 			s.LoadDelayUS = rapid.IntRange(50, 1500).Draw(t, "loaddelayus")
+		}
+		if rapid.IntRange(0, 2).Draw(t, "unassigndelay") == 0 {
+			s.UnassignDelayUS = rapid.IntRange(100, 3000).Draw(t, "unassigndelayus")
 		}
 		nr := rapid.IntRange(1, vt.Scale(8, 20)).Draw(t, "rounds")
 		for i := 0; i < nr; i++ {
@@ -227,6 +242,7 @@ type vpWorld struct {
 	disposeWhileHeld bool
 	faultAfter      bool
 	cancelled       bool
+	lateWorker      bool
 	staleRelease    bool
 	repeatAlloc     bool
 	allocOK, allocErr, allocTimeout int
@@ -522,6 +538,9 @@ func (w *vpWorld) hook(cl *cloudsim.Cloud, c *cloudsim.Call) {
 
 // gate runs without the cloud lock (white-box reads that need the Local's lock).
 func (w *vpWorld) gate(c *cloudsim.Call) {
+	if (c.Kind == cloudsim.KUnAssign4 || c.Kind == cloudsim.KUnAssign6) && w.s.UnassignDelayUS > 0 {
+		time.Sleep(time.Duration(w.s.UnassignDelayUS) * time.Microsecond)
+	}
 	if c.Kind != cloudsim.KDelete {
 		return
 	}
@@ -665,6 +684,134 @@ func (w *vpWorld) doAlloc(o vpOp) {
 	}
 }
 
+// doLateWorker plays the schedule "ADD #1 for a pod is cancelled, the runtime retries
+// (ADD #2), and only then does the pool worker of ADD #1 get to notice the cancellation".
+// Which goroutine runs when is up to the Go scheduler and cannot be forced from outside, so
+// the harness takes the manager's place for ADD #1: it asks the interfaces directly (same
+// loop as Manager.Allocate), does not pick the answer up, lets ADD #2 run through the real
+// manager, and cancels ADD #1's context late. To the pool that is exactly a worker that was
+// descheduled just before it looked at its context; a worker that holds the interface lock
+// meanwhile simply makes ADD #2 wait. Afterwards the answer channel is drained the way
+// Manager.Allocate does after a cancellation and anything received is rolled back the way
+// daemon.AllocIP does.
+func (w *vpWorld) doLateWorker(o vpOp) {
+	pid := vpPodID(o.Pod)
+	cni := &daemon.CNI{PodName: fmt.Sprintf("p%d", o.Pod), PodNamespace: "ns", PodID: pid}
+	w.mu.Lock()
+	held := w.podRes[pid]
+	w.mu.Unlock()
+	if held != nil {
+		// ADD #1 is a first ADD here; a pod that already holds an address takes the ordinary path
+		w.doAlloc(vpOp{Kind: "alloc", Pod: o.Pod})
+		return
+	}
+	req := NewLocalIPRequest()
+	if w.podIsErdma(o.Pod) {
+		req.LocalIPType = LocalIPTypeERDMA
+	}
+	ctxA, cancelA := context.WithCancel(w.ctx)
+	defer cancelA()
+	var ch chan *AllocResp
+	var lo *Local
+	w.mgr.Lock()
+	for _, ni := range w.mgr.networkInterfaces {
+		ch, _ = ni.Allocate(ctxA, cni, req)
+		if ch != nil {
+			switch x := ni.(type) {
+			case *Local:
+				lo = x
+			case *Trunk:
+				lo = x.local
+			}
+			break
+		}
+	}
+	w.mgr.Unlock()
+	if ch == nil || lo == nil {
+		return
+	}
+	w.flag(func() { w.cancelled = true })
+	// an answer that is already there (the interface served the request from its cache and
+	// put the answer into the buffered channel before returning) is always picked up by
+	// Manager.Allocate, cancelled or not: take it, roll it back as daemon.AllocIP does for a
+	// request that failed after the pool had answered, and let ADD #2 be a plain retry
+	select {
+	case r, ok := <-ch:
+		cancelA()
+		if ok && r != nil && r.Err == nil {
+			w.c.Trace("lateworker %s: ADD #1 answered from the cache, cancelled, rolled back", pid)
+			_ = w.mgr.Release(context.Background(), cni, &ReleaseRequest{NetworkResources: r.NetworkConfigs})
+		}
+		w.doAlloc(vpOp{Kind: "alloc", Pod: o.Pod})
+		return
+	default:
+	}
+	w.c.Trace("lateworker %s: ADD #1 in flight, not picked up", pid)
+	t := time.AfterFunc(time.Duration(o.CancelUS)*time.Microsecond, cancelA)
+	defer t.Stop()
+	// ADD #2 may overlap the worker of ADD #1 only once that worker is past its last look at
+	// its context, i.e. once it has marked an address for the pod and is parked handing the
+	// answer over WITHOUT holding the interface lock (then the late cancellation below is
+	// indistinguishable from a worker that was descheduled at that point). A worker that is
+	// still waiting for an address would, in a real run, see the cancellation first; and a
+	// worker that hands over while holding the lock cannot be observed (and makes ADD #2
+	// wait anyway). In those cases ADD #1 is cancelled first and ADD #2 is a plain retry.
+	parked := false
+	mu, _ := lo.cond.L.(*sync.Mutex)
+	for ctxA.Err() == nil && mu != nil {
+		if mu.TryLock() {
+			for _, v := range lo.ipv4 {
+				if v.podID == pid {
+					parked = true
+				}
+			}
+			for _, v := range lo.ipv6 {
+				if v.podID == pid {
+					parked = true
+				}
+			}
+			mu.Unlock()
+			if parked {
+				break
+			}
+		}
+		time.Sleep(20 * time.Microsecond)
+	}
+	if parked {
+		w.flag(func() { w.lateWorker = true })
+		w.c.Trace("lateworker %s: worker of ADD #1 parked outside the lock with an address marked", pid)
+		time.Sleep(time.Duration(o.A) * time.Microsecond)
+	} else {
+		cancelA()
+	}
+	// ADD #2: the runtime's retry, through the real manager
+	w.doAlloc(vpOp{Kind: "alloc", Pod: o.Pod})
+	cancelA()
+	// Manager.Allocate after ctx.Done(): take an answer that is already there
+	var got *AllocResp
+	select {
+	case r, ok := <-ch:
+		if ok {
+			got = r
+		}
+	case <-time.After(20 * time.Millisecond):
+	}
+	if got != nil && got.Err == nil {
+		w.mu.Lock()
+		now := w.podRes[pid]
+		w.mu.Unlock()
+		var rollback []NetworkResource
+		for _, r := range got.NetworkConfigs {
+			if lr, ok := r.(*LocalIPResource); ok && now != nil && lr.IP.IPv4 == now.IP.IPv4 && lr.IP.IPv6 == now.IP.IPv6 {
+				continue // what the pod's acknowledged ADD holds is not taken away (daemon.excludeHeld)
+			}
+			rollback = append(rollback, r)
+		}
+		w.c.Trace("lateworker %s: late answer of ADD #1 rolled back (%d resources)", pid, len(rollback))
+		_ = w.mgr.Release(context.Background(), cni, &ReleaseRequest{NetworkResources: rollback})
+	}
+}
+
 // issuedOnLocked: which interface did the cloud issue the address on (cloud lock held).
 func (w *vpWorld) issuedOnLocked(a netip.Addr) (string, bool) {
 	e, ok := w.cloud.Issued[a]
@@ -707,6 +854,8 @@ func (w *vpWorld) doOp(o vpOp) {
 	switch o.Kind {
 	case "alloc":
 		w.doAlloc(o)
+	case "lateworker":
+		w.doLateWorker(o)
 	case "release":
 		pid := vpPodID(o.Pod)
 		w.release(pid, &daemon.CNI{PodName: fmt.Sprintf("p%d", o.Pod), PodNamespace: "ns", PodID: pid})
@@ -721,6 +870,12 @@ func (w *vpWorld) doOp(o vpOp) {
 		if a.IsValid() {
 			w.flag(func() { w.sawDriftOrFault = true })
 			w.c.Trace("drift: %s removed from %s", a, id)
+		}
+	case "glitch":
+		id, a := w.cloud.GlitchAddr(o.A, o.B, o.V6, 1)
+		if a.IsValid() {
+			w.flag(func() { w.sawDriftOrFault = true })
+			w.c.Trace("glitch: next metadata answer for %s omits %s", id, a)
 		}
 	case "faults":
 		w.cloud.SetFaults(o.Faults)
@@ -1098,7 +1253,7 @@ func vpRunOpt(c *vt.Ctx, s vpScenario, noGuard bool) {
 		var ops []vpOp
 		nAlloc := 0
 		for _, o := range round {
-			if o.Kind == "alloc" || o.Kind == "release" {
+			if o.Kind == "alloc" || o.Kind == "release" || o.Kind == "lateworker" {
 				if seen[o.Pod] {
 					continue
 				}
@@ -1172,6 +1327,9 @@ func (w *vpWorld) report(c *vt.Ctx) {
 	}
 	if w.cancelled {
 		c.Label("cancelled-request")
+	}
+	if w.lateWorker {
+		c.Label("late-worker")
 	}
 	if w.monitorNearCap {
 		c.Label("at-quota-boundary")
